@@ -1241,8 +1241,11 @@ int cif_container_remove_item(
             switch (STEP_STMT(cif, get_loop_size)) {
                 case SQLITE_DONE:
                     /* The container does not have the specified item */
-                    ROLLBACK(cif->db);
-                    FAIL(soft, CIF_NOSUCH_ITEM);
+                    if (ROLLBACK(cif->db) == SQLITE_OK) {
+                        FAIL(soft, CIF_NOSUCH_ITEM);
+                    }
+                    /* the transaction is still open; fail hard, which tries once more to end it */
+                    DEFAULT_FAIL(hard);
                 case SQLITE_ROW:
                     size = sqlite3_column_int(cif->get_loop_size_stmt, 1);
                     loop_num = sqlite3_column_int(cif->get_loop_size_stmt, 0);
